@@ -521,3 +521,5 @@ mut('c01-max-mark-through-ravel', ['C01'], 'max_backward (axis=None) marks the a
 mut('c13-bn1d-super-args-swapped', ['C13', 'C12', 'C06'], 'BatchNorm1d forwards affine / track_running_stats to the base class in swapped positions', [(LY, "        super().__init__(num_features, eps, momentum, affine, track_running_stats, dtype)", "        super().__init__(num_features, eps, momentum, track_running_stats, affine, dtype)")], rules=['C13.SUPER-ROLES', 'C12.SUPER-ROLES', 'C06.SUPER-ROLES'], count=2)
 mut('c08-sgd-nesterov-inplace-on-grad', ['C08'], 'SGD applies the Nesterov correction in place on a name that may still be the parameter gradient buffer', [(O, "                        grad = grad + self.momentum*self.momentum_buffer[i]", "                        grad += self.momentum*self.momentum_buffer[i]")], rules=['C08.GRAD-CONST'])
 mut('c14-tensor-bool-value-dependent', ['C14', 'C02'], 'Tensor gains a value-dependent __bool__ while linear / conv test `if bias:`', [(T, "    def __len__(self) -> int:", "    def __bool__(self) -> bool:\n        return bool(self.data.any())\n\n    def __len__(self) -> int:")], rules=['C14.PRESENCE', 'C02.PRESENCE'])
+mut('c19-linear-bias-not-reset', ['C19'], 'Linear.reset_parameters no longer fills the bias allocated with empty()', [(LY, "        init.uniform_(self.weight, -std, std)\n        if self.bias is not None:\n            init.uniform_(self.bias, -std, std)", "        init.uniform_(self.weight, -std, std)")], rules=['C19.UNINIT'])
+mut('c19-bn-affine-reset-skipped', ['C19'], 'BatchNorm calls reset_parameters only when track_running_stats is set (gamma / beta stay uninitialised otherwise)', [(LY, "            # Initialize parameters\n            self.reset_parameters()", "            # Initialize parameters\n            if self.track_running_stats: self.reset_parameters()")], rules=['C19.UNINIT'])
